@@ -39,10 +39,10 @@ ASSUMPTIONS = [
 BUDGET = {"quick": 85, "thorough": 900}
 ROUNDS = {"thorough": 6}
 FLOORS = {"restarts": {"quick": 120, "thorough": 1200}, "restarts_from_two_files": {"quick": 40, "thorough": 400}, "state_components_compared": {"quick": 5000, "thorough": 50000}, "trajectory_steps_compared": {"quick": 500, "thorough": 5000},
-          "optimizers": 6, "operator_kinds": 5, "adaptor_kinds": 4}
+          "optimizers": 7, "operator_kinds": 5, "adaptor_kinds": 4, "plate_parameter_restarts": {"quick": 4, "thorough": 30}}
 
 F64 = "torch.float64"
-OPTIMS = ["SGD", "Adam", "AdamW", "Adagrad", "RMSprop", "LBFGS"]
+OPTIMS = ["SGD", "SGD-plain", "Adam", "AdamW", "Adagrad", "RMSprop", "LBFGS"]  # SGD-plain: no momentum, no per-parameter optimiser state
 SCHED = ["none", "LambdaLR", "StepLR", "ExponentialLR"]
 MCMC_OPS = ["scaler", "sliding", "dirichlet", "block", "hmc", "hmc-adaptive", "hmc-dual", "hmc-mass", "hmc-mass-window", "hmc-mass-swap", "hmc-dual+mass", "mixed"]
 
@@ -67,6 +67,8 @@ def cases(tier, seed):
                     "find_step_size": True})
     for i, c in enumerate(out):
         c["split"] = i % 3 == 1
+        if c["algorithm"] == "optimizer" and c["objective"] == "map" and i % 2 == 1 and c["definition"] != "full_like":
+            c["plate"] = True
         if c["algorithm"] == "optimizer":
             c["ptype"] = ["Parameter", "torchtree.Parameter", "torchtree.core.parameter.Parameter"][i % 3]
         elif "dual" in c["ops"] and i % 2 == 0:
@@ -102,7 +104,16 @@ def defined(i, n, case, rng):
 def optimizer_spec(case, rng, ckpt):
     n = 3
     data = P("data", rng.normal(0.3, 1.0, n).round(3).tolist())
-    if case["objective"] == "map":
+    if case["objective"] == "map" and case.get("plate"):
+        # the optimised parameters are declared inside a plate (two clones x.0, x.1, each with its own prior)
+        spec = [data,
+                {"id": "plate", "type": "Plate", "range": "0:2",
+                 "object": {"id": "prior.*", "type": "Distribution", "distribution": "torch.distributions.Normal", "x": defined("x.*", n, case, rng), "parameters": {"loc": 0.0, "scale": 2.0}}},
+                {"id": "lik", "type": "Distribution", "distribution": "torch.distributions.Normal", "x": "data", "parameters": {"loc": "x.0", "scale": 0.7}},
+                {"id": "lik1", "type": "Distribution", "distribution": "torch.distributions.Normal", "x": "data", "parameters": {"loc": "x.1", "scale": 1.1}},
+                {"id": "joint", "type": "JointDistributionModel", "distributions": ["prior.0", "prior.1", "lik", "lik1"]}]
+        loss, params = "joint", ["x.0", "x.1"]
+    elif case["objective"] == "map":
         x = defined("x", n, case, rng)
         spec = [data, x,
                 {"id": "prior", "type": "Distribution", "distribution": "torch.distributions.Normal", "x": "x", "parameters": {"loc": 0.0, "scale": 2.0}},
@@ -121,9 +132,9 @@ def optimizer_spec(case, rng, ckpt):
                 {"id": "elbo", "type": "ELBO", "variational": "var", "joint": "joint", "samples": 3}]
         loss, params = "elbo", ["q.m", "q.logs"]
     o = case["optim"]
-    opts = {"SGD": {"lr": 0.05, "momentum": 0.9}, "Adam": {"lr": 0.05}, "AdamW": {"lr": 0.05, "weight_decay": 0.01}, "Adagrad": {"lr": 0.1}, "RMSprop": {"lr": 0.02, "momentum": 0.5},
+    opts = {"SGD": {"lr": 0.05, "momentum": 0.9}, "SGD-plain": {"lr": 0.05}, "Adam": {"lr": 0.05}, "AdamW": {"lr": 0.05, "weight_decay": 0.01}, "Adagrad": {"lr": 0.1}, "RMSprop": {"lr": 0.02, "momentum": 0.5},
             "LBFGS": {"lr": 0.5, "max_iter": 3}}[o]
-    opt = {"id": "opt", "type": "Optimizer", "algorithm": "torch.optim." + o, "options": opts, "maximize": True, "loss": loss, "parameters": params, "iterations": 12,
+    opt = {"id": "opt", "type": "Optimizer", "algorithm": "torch.optim." + o.split("-")[0], "options": opts, "maximize": True, "loss": loss, "parameters": params, "iterations": 12,
            "checkpoint": ckpt, "checkpoint_frequency": case["frequency"]}
     s = case["scheduler"]
     if s == "LambdaLR":
@@ -370,6 +381,8 @@ def run_case(case):
          "iteration_counter_repeats_observed": 0}
     if alg == "optimizer":
         C["optimizers"] = [case["optim"]]
+        if case.get("plate"):
+            C["plate_parameter_restarts"] = 1
     else:
         k = case["ops"]
         C["operator_kinds"] = [k.split("-")[0]] if k != "mixed" else ["scaler", "sliding", "dirichlet", "hmc"]
